@@ -4,3 +4,13 @@ claim("C13", "translation_validation",
       "translation validation: YAML spec vs AST of generated classes", "DESIGN.md §4 C13")
 for _p in ["C01","C02","C03","C04","C05","C06","C07","C08","C09","C10","C11","C12","C14","C15","C16","C17","C18","C19","C20"]:
     NA[_p] = "static rule set designed (DESIGN.md §4) but not yet built in this commit; no verdict is claimed"
+claim("C12", "proof",
+      "Every packed-word accessor (4 note sub-fields, 6 visualization sub-fields) and both packer/unpacker pairs (SMII, SFGS) are evaluated in a per-bit abstract domain with the old word and the new value as opaque terms: each obligation (read-back = new value masked to the field width; all other bits = old; fields disjoint and equal to the YAML member table) is discharged for all 2^32 old words x all new values at once. Note.raw_data format/order parity and the row-major offset polynomial of Pattern.raw_data are decided exactly.",
+      "trusted: the bit-domain transfer functions (sa/bits.py), Python ast; run-time enum validity of enumerated parts is a precondition, not decided",
+      "bit-vector abstract interpretation + polynomial identity", "DESIGN.md §4 C12")
+claim("C18", "proof",
+      "Single-writer census of the strictness global over all 134 files; symbolic-value dataflow over the context manager's CFG (with exception edges) shows the global equals its entry value at every exit; typestate dataflow over read_sunvox_file shows the path-opened file is closed on every normal and exceptional exit and that the load runs inside the override; every reader construction and nested load goes through the guarded entry. Exception edges over-approximate every crash point, so the fault/crash quantifier is covered without enumerating faults.",
+      "trusted: sa/cfg.py CFG construction, contextlib.contextmanager semantics, 'close() releases even if it raises'",
+      "typestate dataflow on a CFG with exception edges + who-may-write census", "DESIGN.md §4 C18")
+for _p in ["C12", "C18"]:
+    NA.pop(_p, None)
